@@ -52,10 +52,14 @@ class List(Environment):
         """ Set list nesting depth """
         if self.macroMode != Environment.MODE_END:
             List.depth += 1
+            # A new list starts counting from zero (like LaTeX's usecounter),
+            # whatever was done to its counter outside of the list
+            first = List.depth - 1
         else:
             List.depth -= 1
+            first = List.depth
         try:
-            for i in range(List.depth, len(List.counters)):
+            for i in range(first, len(List.counters)):
                 self.ownerDocument.context.counters[List.counters[i]].setcounter(0)
         except (IndexError, KeyError):
             pass
